@@ -16,6 +16,7 @@ CALL_FEATURES = dict(
     grad=['no_grad', 'inference_mode', 'enabled', 'enabled+requires_grad'],
     autocast=[False, True],
     shape=['b2n5', 'b1n1', 'b3n2'],
+    ambient=['none', 'deterministic', 'default-bfloat16', 'default-float64'],
 )
 
 
@@ -92,6 +93,8 @@ def build_call(v, torch, dim, heads=1, K=6, nq=None, image=False, rng=None):
             st.enter_context(torch.inference_mode())
         if v['autocast']:
             st.enter_context(torch.autocast('cpu', dtype=torch.bfloat16))
+        if v.get('ambient', 'none') != 'none':
+            st.enter_context(ambient(torch, v['ambient']))
         return st
     return x, kw, ctx, valid
 
@@ -171,3 +174,20 @@ def frozen_surgery(torch, mod, mk):
     yield 'unfrozen-train'
     mod.eval()
     yield 'unfrozen-eval'
+
+
+@contextlib.contextmanager
+def ambient(torch, kind):
+    """process-wide torch settings around a call, restored afterwards: 'deterministic' = torch.use_deterministic_algorithms(True, warn_only=True)
+    (uninitialised memory reads as NaN, alternative kernels), 'default-bfloat16' / 'default-float64' = torch.set_default_dtype (what factory
+    functions without an explicit dtype return).  A quantizer's results are a function of its arguments and state, not of these."""
+    was_det, was_dt = torch.are_deterministic_algorithms_enabled(), torch.get_default_dtype()
+    try:
+        if kind == 'deterministic':
+            torch.use_deterministic_algorithms(True, warn_only=True)
+        elif kind.startswith('default-'):
+            torch.set_default_dtype(getattr(torch, kind.split('-', 1)[1]))
+        yield
+    finally:
+        torch.use_deterministic_algorithms(was_det)
+        torch.set_default_dtype(was_dt)
